@@ -26,6 +26,22 @@ for a, b, c in itertools.product(firsts[:4], seconds[:4], firsts[:4]):
 for t in ['NaN', '[Infinity]', '{"a":-Infinity}', '[1,]', '{"a":1,}', "['a']", '0x10', '+1', '.5', '1.', '[1 2]', '{"a" 1}', '// c\n1', '/* c */ 1', 'nan', 'Infinity', '-NaN', '[NaN, 1]', 'undefined',
           '{a:1}', '"\t"', '"\\x41"', '01', '-', '[', ']', '{"a":}', '1e', '1e+', 'tru', 'True', 'NULL', '\ufeff1', '1\x0c', '\x0b1', '"a" "b"', '1 2', '{} {}', '[] []', '']:
     add(t)
+# many containers in ONE document (whatever is counted while a document is read or converted is about depth, not about how many arrays or
+# objects there are): 130 / 200 / 300 small arrays and objects side by side and in rows, well inside every depth limit
+for n in (127, 128, 129, 130, 200, 300):
+    add("[" + ",".join("[%d]" % (i % 10) for i in range(n)) + "]")
+    add("[" + ",".join("{}" for i in range(n)) + "]")
+    add('{"rows":[' + ",".join('{"k":[]}' for i in range(n)) + "]}")
+    add("[" + ",".join("[[%d],[]]" % (i % 10) for i in range(n // 2)) + "]")
+# characters that are invisible or that a tolerant reader might strip, INSIDE strings and keys (they are ordinary characters there) and in
+# front of the document (where none of them is JSON)
+for ch in ["\ufeff", "\u200b", "\u00ad", "\u2060", "\ufffe", "\u200e", "\u00a0", "\u2028", "\x7f", "\u0085"]:
+    add('["a%sb"]' % ch)
+    add('{"a%sb":1,"ab":2}' % ch)
+    add('["%stail","head%s"]' % (ch, ch))
+    add('{"%s":"%s"}' % (ch, ch))
+    add(ch + '[1]')
+    add('[1]' + ch)
 out = os.path.join(VERIF, "spec", "gen", "json_pools.ndjson")
 with open(out, "w") as f:
     for c in cases:
